@@ -585,6 +585,11 @@ func init() {
 			*st = *fv.mergeStates([]*State{a, b}, base)
 			return nil
 		}},
+		// cmp.Compare over an ordered type: -1, 0 or +1 by the (uninterpreted, total) order
+		"cmp.Compare": {pure: true, fn: func(fv *FuncVerifier, call *ast.CallExpr, args []Term, st *State) []Term {
+			t := fv.typeOf(call.Args[0])
+			return []Term{ite(fv.cmp(token.LSS, args[0], args[1], t), intT(-1), ite(fv.cmp(token.LSS, args[1], args[0], t), intT(1), intT(0)))}
+		}},
 		"slices.Insert": {pure: false, fn: func(fv *FuncVerifier, call *ast.CallExpr, args []Term, st *State) []Term {
 			if len(args) != 3 || call.Ellipsis.IsValid() {
 				reject("slices.Insert with other than one inserted value")
@@ -595,6 +600,9 @@ func init() {
 			st.assume(mk(sortBool, "(= %s (+ %s 1))", slLen(r).S, slLen(s).S))
 			st.assume(mk(sortBool, "(forall ((k!c Int)) (! (= (select %s k!c) (ite (< k!c %s) (select %s k!c) (ite (= k!c %s) %s (select %s (- k!c 1))))) :pattern ((select %s k!c))))",
 				slArr(r).S, i.S, slArr(s).S, i.S, v.S, slArr(s).S, slArr(r).S))
+			// the same fact seen from the source: every old element has a place in the result
+			st.assume(mk(sortBool, "(forall ((k!c Int)) (! (and (=> (and (<= 0 k!c) (< k!c %s)) (= (select %s k!c) (select %s k!c))) (=> (and (<= %s k!c) (< k!c %s)) (= (select %s (+ k!c 1)) (select %s k!c)))) :pattern ((select %s k!c))))",
+				i.S, slArr(r).S, slArr(s).S, i.S, slLen(s).S, slArr(r).S, slArr(s).S, slArr(s).S))
 			return []Term{r}
 		}},
 		"slices.Delete": {pure: false, fn: func(fv *FuncVerifier, call *ast.CallExpr, args []Term, st *State) []Term {
